@@ -264,6 +264,9 @@ def check(run: Run, prog: Program, model: Model, tier: str) -> None:
 
 SU = "d42/substitution/_substitutor.py"
 MUTANTS = [
+    {"name": "validator: a declared max_len re-opens an exact element list", "rule": "W3-LIST",
+     "edits": [("d42/validation/_validator.py", "        if len(value) > len(elements):\n            for index in range(len(elements), len(value)):\n                result.add_error(ExtraElementValidationError(path, value, index))",
+                "        allowed = len(elements)\n        if schema.props.max_len is not Nil:\n            allowed = max(allowed, schema.props.max_len)\n        for index in range(allowed, len(value)):\n            result.add_error(ExtraElementValidationError(path, value, index))")]},
     {"name": "absent keys become optional", "rule": "W2-DICT",
      "edits": [(SU, "                else:\n                    keys[key] = (val, is_optional)", "                else:\n                    keys[key] = (val, True)")]},
     {"name": "relaxed marker always added", "rule": "W2-DICT",
